@@ -32,7 +32,7 @@ ASSUMPTIONS = [
     "not judged: date-like captures that are not calendar dates, explicit template argument together with a matching pattern",
 ]
 REQUIRED_COUNTERS = ["contract_evals.init_from_template", "enter.render", "route.api", "route.cli_template_init", "route.cli_edit"]
-MIN_JUDGED = {"quick": 600, "thorough": 20000}
+MIN_JUDGED = {"quick": 4000, "thorough": 50000}
 _S = {"viol": []}
 ZID_GAIN = re.compile(r"^([-ox~<>] (?:P\d )?)\d{6}#[0-9A-Za-z]{2,3} (?=note from template|todo from )", re.M)
 
@@ -109,8 +109,8 @@ def setup_worker() -> None:
 
 
 def plan(tier: str, seed: int) -> list[dict]:
-    n = 960 if tier == "quick" else 30000
-    per = 30 if tier == "quick" else 300
+    n = 3200 if tier == "quick" else 40000
+    per = 100 if tier == "quick" else 500
     return [{"kind": "tmpl", "start": s, "n": per, "seed": seed} for s in range(0, n, per)]
 
 
